@@ -118,6 +118,22 @@ def well_formed_cases(r: Run, keys):
         if max_abs(ts) > I32MAX // 4:
             continue
         out.append(render(ts))
+    # two keys out of hundreds: every pair of fixed-isotope keys of DIFFERENT elements with the same isotope number (isobars:
+    # H[1] / H+[1], Ar[40] / K[40] / Ca[40], ...) and every pair of keys of one element, in one formula
+    by_iso = {}
+    for sym, isos in keys.items():
+        if sym[0].isupper():
+            for i in isos:
+                by_iso.setdefault(i, []).append(sym)
+    for i, syms in sorted(by_iso.items()):
+        for a in range(len(syms)):
+            for b in range(a + 1, len(syms)):
+                out.append(f"{syms[a]}[{i}]2{syms[b]}[{i}]3")
+                if (a + b) % 4 == 0 or r.tier == "thorough":
+                    out.append(f"{syms[b]}[{i}]({syms[a]}[{i}]2)3{syms[b]}[{i}]")
+    for sym, isos in keys.items():
+        if sym[0].isupper() and len(isos) >= 2:
+            out.append(sym + "2" + "".join(f"{sym}[{i}]{k + 3}" for k, i in enumerate(isos[:4])))
     # the SAME group body more than once at one level, with different multipliers (a parser that remembers a parsed body
     # must not remember what it did to it): flat and nested bodies, adjacent and separated by element terms
     for _ in range(120 if r.tier == "thorough" else 40):
@@ -221,6 +237,8 @@ def malformed_cases(r: Run, wf):
             # after a bracket, after a group, after a group count); the table DOES hold a lower-case key, e*
             # symbols that equal a table key only after case folding (E* -> e*, CL, NA, hE) or after Unicode case mapping
             # (U+212A KELVIN SIGN lower-cases to k: B + U+212A -> Bk; U+017F LONG S upper-cases to S)
+            # a group whose body is exactly the one table key the grammar does not admit
+            "(e*)", "(e*)2", "H2(e*)3O", "C[13](e*)2", "((e*)2O)3", "(e*)(e*)", "(H+)(e*)",
             "E*", "C2E*", "(E*)3", "CL", "NA", "NACL", "Cl2NA", "hE", "B\u212a", "H2B\u212aO", "\u212a", "C\u017f", "(B\u212a)2",
             "C2e*", "C[13]e*", "(C)e*", "(C)2e*", "C2h", "C[13]h", "(C)h", "(C)2h", "(C)é", "C2é", "(C)2é", "C[13]é",
             "C[99999]2", "C[99999]2H", "C[65536]1O2", "C[²]2", "C[²]2O", "(C[99999]2)3", "C[٣]4", "O2C[70000]3",
